@@ -214,15 +214,48 @@ def multi_case(rng, audios):
 NEW_PRONS = ["F AO R W ER D", "G OW", "T EH N", "M IY T ER Z", "HH AH L OW", "S T AA P", "AH", "W AH N T UW"]
 
 
-def gen_calls(rng, after_end):
-    """a list of public calls that feed no audio and do not replace the search (harness cmd_calls)"""
+# grammars / texts the decoder REFUSES (decoder_set_* returns -1 and keeps the old search, hypothesis and lattice)
+_OOV = ["zzzqx", "qwrtzp", "notaword_"]
+REFUSED_JSGF = {
+    "oov-word": lambda w: f"#JSGF V1.0; grammar r; public <r> = go {w} ten ;",                  # refused by fsg_search_init (search construction)
+    "oov-only": lambda w: f"#JSGF V1.0; grammar r; public <r> = {w} ;",
+    "oov-in-alternative": lambda w: f"#JSGF V1.0; grammar r; public <r> = go ( forward | {w} ) [ ten ] ;",
+    "no-public-rule": lambda w: "#JSGF V1.0; grammar r; <r> = go forward ;",                      # refused before decoder_set_fsg
+    "syntax-error": lambda w: "#JSGF V1.0; grammar r; public <r> = go ( forward ;",
+    "not-jsgf": lambda w: "go forward ten meters",
+}
+REFUSED_FSG = lambda w: f"FSG_BEGIN r\nNUM_STATES 3\nSTART_STATE 0\nFINAL_STATE 2\nTRANSITION 0 1 1.0 go\nTRANSITION 1 2 1.0 {w}\nFSG_END\n"
+
+
+def gen_refused(rng):
+    """one grammar-setting call that is refused (harness ops rjs / rjf / rfsg / ral): returns (op, kind)"""
+    w = rng.choice(_OOV)
+    api = rng.weighted([("rjs", 5), ("rfsg", 3), ("rjf", 2), ("ral", 2)])
+    if api == "ral":
+        return f"ral:{hx(rng.choice(['go ' + w, w, 'go forward ' + w + ' meters']))}", "align-text:unknown-word"
+    if api == "rfsg":
+        return f"rfsg:{hx(REFUSED_FSG(w))}", "fsg-file:oov-word"
+    kind = rng.weighted([("oov-word", 5), ("oov-only", 2), ("oov-in-alternative", 2), ("no-public-rule", 1), ("syntax-error", 1), ("not-jsgf", 1)])
+    if api == "rjf" and rng.chance(0.25):
+        return "rjf:-", "jsgf-file:no-such-file"
+    return f"{api}:{hx(REFUSED_JSGF[kind](w))}", ("jsgf-string:" if api == "rjs" else "jsgf-file:") + kind
+
+
+def gen_calls(rng, after_end, stats=None):
+    """a list of public calls that feed no audio and do not replace the search (harness cmd_calls); after the end of the
+    utterance also grammar-setting calls that the decoder refuses (an accepted one replaces the search: not in this list)"""
     def word():
         return rng.choice(["_forward", "_go", "_x" + str(rng.range(0, 99)), "newword", "go(7)", "ten"])
 
     def one():
         k = rng.weighted([("hyp", 3), ("prob", 2), ("seg", 3), ("nb", 3), ("al", 2), ("json", 3), ("nf", 1), ("cmn0", 1), ("cmn1", 1),
                           ("setcmn", 1), ("cfg", 1), ("get", 1), ("time", 1), ("ref", 1), ("lat", 2), ("lw", 2), ("aw0", 3),
-                          ("aw1", 6 if after_end else 0)])
+                          ("aw1", 6 if after_end else 0), ("refused", 7 if after_end else 0)])
+        if k == "refused":
+            op, kind = gen_refused(rng)
+            if stats is not None:
+                stats["cache:refused-grammar-generated:" + kind] = stats.get("cache:refused-grammar-generated:" + kind, 0) + 1
+            return op
         if k == "seg":
             return "seg" + str(rng.choice([0, 1, 2, 50]))
         if k == "nb":
@@ -247,9 +280,15 @@ def calls_case(rng, audios, stats=None):
     if not cs["mids"]:
         cs["mids"] = [rng.range(8000, max(8001, cs["cut"] - 1))] if cs["cut"] > 8001 else []
     calls = {str(i): gen_calls(rng, False) for i in range(len(cs["mids"])) if rng.chance(0.7)}
-    calls["end"] = gen_calls(rng, True)
+    calls["end"] = gen_calls(rng, True, stats)
     if "aw1" not in calls["end"] and rng.chance(0.7):
         calls["end"] += f",aw1:{hx('_forward')}:{hx('F AO R W ER D')}" + rng.choice(["", ",hyp", ",nb1", ",lat"])
+    if not any(o.split(":")[0] in ("rjs", "rjf", "rfsg", "ral") for o in calls["end"].split(",")) and rng.chance(0.6):
+        # error / recovery path: a refused grammar between the two requests (alone, or followed by another query)
+        op, kind = gen_refused(rng)
+        if stats is not None:
+            stats["cache:refused-grammar-generated:" + kind] = stats.get("cache:refused-grammar-generated:" + kind, 0) + 1
+        calls["end"] = rng.choice([op, calls["end"] + "," + op, op + "," + calls["end"], calls["end"] + "," + op + rng.choice([",hyp", ",lat", ",seg2"])])
     cs["calls"] = calls
     if rng.chance(0.5):
         cs["cfg"] = [o for o in cs["cfg"] if not o.startswith("bestpath")] + [rng.choice(["bestpath=no", "bestpath=yes"])]
@@ -917,6 +956,8 @@ def judge_c11(c, d, rep, tab, case, stats):
             stats["cache:call-between-two-requests:" + b] = stats.get("cache:call-between-two-requests:" + b, 0) + 1
         if extra:
             stats["cache:second-request-after-other-public-calls"] = stats.get("cache:second-request-after-other-public-calls", 0) + 1
+        if any(b.endswith("_refused") for b in extra):
+            stats["cache:second-request-after-refused-grammar"] = stats.get("cache:second-request-after-refused-grammar", 0) + 1
         if "decoder_add_word_update" in extra:
             stats["cache:second-request-after-add_word-update"] = stats.get("cache:second-request-after-add_word-update", 0) + 1
         if tr[j][2] >= 0 and tr[i][2] != tr[j][2]:
